@@ -53,7 +53,7 @@ Section Faults.
     (k < announced fl)%nat ->
     is_ok (decode d rd (mkFile (f_v2 fl) (f_meshunit fl) (f_base fl) (f_nodes fl) (f_step fl) (f_min fl)
                          (f_max fl) (f_valuedim fl) (f_labels fl) (f_units fl) (f_rep fl) (f_check fl)
-                         (firstn k (f_payload fl)) (f_tail_ok fl)) side) = false.
+                         (firstn k (f_payload fl)) (f_cols fl) (f_tail_ok fl)) side) = false.
   Proof.
     intros Hb Hk. apply short_block_rejected; simpl; [exact Hb|].
     unfold announced in *; simpl. rewrite firstn_length. lia.
